@@ -10,6 +10,7 @@ import (
 	"encoding/base64"
 	"errors"
 	"fmt"
+	"github.com/hashicorp/go-plugin/internal/verifhook"
 	"io"
 	"net"
 	"os"
@@ -268,6 +269,7 @@ func Serve(opts *ServeConfig) {
 
 	// negotiate the version and plugins
 	// start with default version in the handshake config
+	verifhook.Point("serve.cookieOK", 0)
 	protoVersion, protoType, pluginSet := protocolVersion(opts)
 
 	logger := opts.Logger
@@ -287,6 +289,7 @@ func Serve(opts *ServeConfig) {
 		return
 	}
 
+	verifhook.Point("serve.listenerReady", 0)
 	// Close the listener on return. We wrap this in a func() on purpose
 	// because the "listener" reference may change to TLS.
 	defer func() {
@@ -444,6 +447,7 @@ func Serve(opts *ServeConfig) {
 		}
 		fmt.Printf("%s\n", protocolLine)
 		os.Stdout.Sync()
+		verifhook.Point("serve.lineWritten", 0)
 	} else if ch := opts.Test.ReattachConfigCh; ch != nil {
 		// Send back the reattach config that can be used. This isn't
 		// quite ready if they connect immediately but the client should
@@ -495,6 +499,7 @@ func Serve(opts *ServeConfig) {
 
 	// Accept connections and wait for completion
 	go server.Serve(listener)
+	verifhook.Point("serve.serving", 0)
 
 	ctx := context.Background()
 	if opts.Test != nil && opts.Test.Context != nil {
